@@ -37,6 +37,7 @@ func VerifItemReadTs(item *Item) uint64 { return item.txn.readTs }
 func VerifStreamStepped(st *Stream, ranges [][2][]byte, pre int, mid func()) error {
 	ctx, cancel := context.WithCancel(context.Background())
 	defer cancel()
+	defer st.beginRun()() // as Orchestrate: one snapshot for the whole run
 	st.rangeCh = make(chan keyRange)
 	st.kvChan = make(chan *z.Buffer)
 	if st.KeyToList == nil {
